@@ -187,7 +187,7 @@ func RewriteForProxy(pkt []byte, serverID net.IP, clientLease uint32) []byte {
 	pkt = SetOptionIP(pkt, OptServerID, serverID)
 	pkt = SetOptionUint32(pkt, OptLeaseTime, clientLease)
 	pkt = SetOptionUint32(pkt, OptT1, clientLease/2)
-	pkt = SetOptionUint32(pkt, OptT2, clientLease*7/8)
+	pkt = SetOptionUint32(pkt, OptT2, uint32(uint64(clientLease)*7/8))
 	return pkt
 }
 
